@@ -160,7 +160,16 @@ def run_case(seed, tier, rec, st):
         fargs = [f"default_factory=lambda: {val_src}"]
         if meta:
             fargs.append(f"metadata=field_options({', '.join(meta)})")
-        lines.append(f"    x: {ann} = field({', '.join(fargs)})")
+        three_levels = entry in ("mixin", "codec", "nested") and flavour not in WRAP and rng.random() < 0.25
+        if three_levels:
+            # the field is declared by a grand-parent with OTHER field options, re-declared by the parent (the effective
+            # declaration) and only inherited by M
+            mix = lines[-1][len("class M("):-2]
+            lines[-1] = "class B0(" + mix + "):" if mix else "class B0:"
+            lines.append(f"    x: {ann} = field(default_factory=lambda: {val_src}, metadata=field_options(serialize=mk_ser('STALE'), deserialize=mk_de('STALE')))")
+            lines += ["@dataclass", "class B1(B0):", f"    x: {ann} = field({', '.join(fargs)})", "@dataclass", "class M(B1):"]
+        else:
+            lines.append(f"    x: {ann} = field({', '.join(fargs)})")
         lines.append("    class Config(BaseConfig):")
         lines.append(f"        serialization_strategy = {reg('cfgs')}")
         lines.append("        code_generation_options = [ADD_DIALECT_SUPPORT]")
@@ -173,7 +182,7 @@ def run_case(seed, tier, rec, st):
                       "    class Config(BaseConfig):", "        code_generation_options = [ADD_DIALECT_SUPPORT]"]
         src = "\n".join(lines) + "\n"
         det = lambda **kw: dict({"source": src, "entry": entry, "enabled": [f"{s}:{k}" for s, k in enabled]}, **kw)
-        facts = {"entry": entry, "flavour": flavour}
+        facts = {"entry": entry, "flavour": flavour, "three_levels": three_levels}
         try:
             fam.exec_src(src)
         except Exception as e:
